@@ -23,23 +23,42 @@ def nontrivial(src, out):
     return "clip-path" in src
 
 
-def special(rng):
+def special(rng, force=None):
     """a clipPath that carries a transform AND is itself clipped: whether the transform also moves the referenced clip is
     read differently by renderers (DESIGN §9.3), so these documents are not given a rendering verdict — they take part in
     the correspondence with the Lean model, which pins what the code does today"""
-    k0 = rng.random()
+    k0 = rng.random() if force is None else force
     if k0 < 0.08:
         # clip-rule is an inherited property: set on an ancestor of the clipPath (the root, a group around it) it holds for
         # the clipPath's children, whether or not they repeat it
         star = "M50,5 L21,90 L98,35 L2,35 L79,90 Z"
-        where = rng.choice(["root", "group", "both"])
+        where = rng.choice(["root", "group", "both", "levels", "levels"])
         child_rule = rng.choice(["", "", ' clip-rule="evenodd"', ' clip-rule="nonzero"'])
+        if where == "levels":
+            # different values at two levels: the nearest one holds
+            inner, outer = rng.choice([("evenodd", "nonzero"), ("nonzero", "evenodd")])
+            cp = '<clipPath id="c" clip-rule="%s"><path d="%s"/></clipPath>' % (inner, star)
+            cp = rng.choice(['<defs clip-rule="%s">%s</defs>', '<g clip-rule="%s">%s</g>']) % (outer, cp)
+            return ('<svg xmlns="http://www.w3.org/2000/svg" viewBox="0 0 100 100">%s<rect width="100" height="100" fill="blue" clip-path="url(#c)"/></svg>' % cp,
+                    [(50, 50), (50, 45), (50, 20), (30, 60), (70, 60), (50, 70)])
         cp = '<clipPath id="c"><path d="%s"%s/></clipPath>' % (star, child_rule)
         if where in ("group", "both"):
             cp = '<g clip-rule="evenodd">%s</g>' % cp
         root = ' clip-rule="evenodd"' if where in ("root", "both") else ""
         return ('<svg xmlns="http://www.w3.org/2000/svg" viewBox="0 0 100 100"%s>%s<rect width="100" height="100" fill="blue" clip-path="url(#c)"/></svg>'
                 % (root, cp), [(50, 50), (50, 45), (50, 20), (30, 60), (70, 60), (50, 70)])
+    if 0.16 <= k0 < 0.22:
+        # clip children that overlap and are drawn in opposite directions (a rect is clockwise; the polygon is not, or a child
+        # is mirrored): the clip region is their union whatever the directions
+        x, y, w, h = rng.randint(10, 30), rng.randint(10, 30), rng.randint(30, 45), rng.randint(30, 45)
+        px, py = x + w // 2, y + h // 2
+        ccw = '<path d="M%d,%d L%d,%d L%d,%d L%d,%d Z"/>' % (px, py, px, py + 40, px + 40, py + 40, px + 40, py)
+        mirrored = '<rect x="%d" y="%d" width="40" height="40" transform="scale(-1 1)"/>' % (-(px + 40), py)
+        kids = ['<rect x="%d" y="%d" width="%d" height="%d"/>' % (x, y, w, h), rng.choice([ccw, mirrored])]
+        rng.shuffle(kids)
+        return ('<svg xmlns="http://www.w3.org/2000/svg" viewBox="0 0 100 100"><defs><clipPath id="c">%s</clipPath></defs>'
+                '<rect x="2" y="2" width="96" height="96" fill="blue" clip-path="url(#c)"/></svg>' % "".join(kids),
+                [(px + 5, py + 5), (px + 3, py + 8), (x + 3, y + 3), (px + 30, py + 30), (px + 10, py + 2)])
     if k0 < 0.16:
         # a clip region that is empty: children that enclose no area, or a clipPath clipped by one it does not overlap —
         # the clipped content is gone (SVG: "an empty clipping path ... completely clips away the element")
@@ -54,7 +73,7 @@ def special(rng):
                              '<g clip-path="url(#c)"><rect x="5" y="5" width="50" height="50" fill="blue"/><circle cx="60" cy="60" r="25" fill="red"/></g>'])
         return ('<svg xmlns="http://www.w3.org/2000/svg" viewBox="0 0 100 100"><defs>%s</defs>%s<rect x="70" y="5" width="20" height="10" fill="lime"/></svg>' % (defs, target),
                 [(20, 20), (30, 40), (60, 60), (75, 75), (50, 50)])
-    if k0 > 0.24:
+    if k0 > 0.30 or 0.16 <= k0 < 0.22:
         return None
     tr = rng.choice(["translate(15 10)", "scale(0.8)", "rotate(20 40 40)", "translate(5 5) scale(1.2)"])
     inner_tr = rng.choice(["", ' transform="translate(8 0)"'])
@@ -68,6 +87,7 @@ def special(rng):
 
 
 P = RenderProp(features, "stack", n_quick=110, n_thorough=700, nontrivial=nontrivial, special=special)
+P.firsts = [0.01, 0.04, 0.07, 0.1, 0.13, 0.17, 0.2, 0.25, 0.28, 0.03, 0.12, 0.19]
 correspondence = P.correspondence
 replay = P.replay
 
